@@ -126,7 +126,8 @@ int carquet_zstd_compress(
     size_t* dst_size,
     int level) {
 
-    if (!src || !dst || !dst_size) {
+    /* The empty input may be a NULL pointer, as for Snappy and LZ4 */
+    if ((!src && src_size > 0) || !dst || !dst_size) {
         return CARQUET_ERROR_INVALID_ARGUMENT;
     }
 
